@@ -6,7 +6,7 @@ All statements are about `Model/Reuse.lean` (tied to /repo by harness/c16.cpp vs
 quantify over ALL states / histories, not over reachable samples.  `World.obs` (Spec/Reuse.lean) is what a dump prints
 in its `code|` part; `Sim a b` = `a.obs = b.obs`.
 -/
-import AsmjitVerif.Lemmas.Reuse
+import AsmjitVerif.Lemmas.ReuseStep
 namespace AsmjitVerif.Reuse
 
 /-! ### 1. the cleaning functions forget everything (every state, reachable or not) -/
@@ -271,11 +271,6 @@ theorem detach_sim (a b : World) (i : Nat) (h : Sim a b) : Sim (a.detach i).1 (b
         simp only [Holder.mk.injEq] at this ⊢
         simp_all
 
-/-- lifecycle and configuration operations (everything except code generation proper) -/
-def Op.lifecycle : Op → Bool
-  | .world | .init _ | .reset _ | .reinit | .attach _ | .detach _ | .hlogger _ | .elogger _ _ | .diag _ _ | .dump => true
-  | _ => false
-
 /-- one lifecycle step maps indistinguishable worlds to indistinguishable worlds and gives the same answer
     (for the logger / diagnostic operations the answer is the constant "ok") -/
 theorem lifecycle_step_sim (a b : World) (op : Op) (hop : op.lifecycle = true) (h : Sim a b) :
@@ -312,29 +307,63 @@ def World.trace (w : World) : List Op → List String
   | [] => []
   | op :: r => (w.step op).2 :: (w.step op).1.trace r
 
-/-
-Full-strength statement (NOT proved here): for every program `p` of arbitrary operations,
-  `Sim a b → a.trace p = b.trace p ∧ Sim (a.run p) (b.run p)`,
-hence `(w.reset hard).trace p = World.fresh.trace p` for every `w` as in `reset_sim_fresh`.
-What is missing is the unwinding lemma for the code-generation operations (label, nlabel, bind, raw, opt, cmt, jmp,
-elabel, section, switch, vreg, jann, finalize): they only read fields that `obs` keeps, but the ~15 "respects the
-observation" lemmas (incl. the recursive `resolveFixups` and `serialize`) are not written.  For those operations the
-claim is carried by the C++/Lean correspondence and by the fresh-vs-recycled monitor (tools/props/c16.py).
--/
+/-- **unwinding, every operation.** One step of ANY operation - lifecycle, configuration or code generation (labels,
+    named labels, bind with fixup resolution, raw data, jmp with one-shot options, embed_label relocations, sections,
+    Builder nodes, virtual registers, jump annotations, finalize = serialisation) - maps indistinguishable worlds to
+    indistinguishable worlds and gives the same answer. -/
+theorem step_sim (a b : World) (op : Op) (h : Sim a b) : Sim (a.step op).1 (b.step op).1 ∧ (a.step op).2 = (b.step op).2 := by
+  cases hop : op.lifecycle
+  · have ha := gen_step_resp a op hop
+    have hb := gen_step_resp b op hop
+    unfold Sim at h ⊢
+    exact ⟨by rw [ha.1, hb.1, h], by rw [ha.2, hb.2, h]⟩
+  · exact lifecycle_step_sim a b op hop h
 
-/-- **no residue across any lifecycle history (partial: lifecycle/configuration operations).** Indistinguishable worlds
-    stay indistinguishable and answer identically along every sequence of init / reset / reinit / attach / detach /
-    logger / diagnostic operations, of any length. -/
-theorem no_residue_partial (p : List Op) (hp : ∀ op ∈ p, op.lifecycle = true) :
-    ∀ (a b : World), Sim a b → a.trace p = b.trace p ∧ Sim (a.run p) (b.run p) := by
+/-- **no residue, full strength.** Along every program of any length and any mix of operations, indistinguishable
+    worlds give the same answers (label ids, section ids, error codes …) and stay indistinguishable - so every later
+    dump shows the same sections, bytes, labels, fixups, relocations and emitter state. -/
+theorem no_residue (p : List Op) : ∀ (a b : World), Sim a b → a.trace p = b.trace p ∧ Sim (a.run p) (b.run p) := by
   induction p with
   | nil => intro a b h; exact ⟨rfl, h⟩
   | cons op r ih =>
     intro a b h
-    have hs := lifecycle_step_sim a b op (hp op (by simp)) h
-    have := ih (fun o ho => hp o (by simp [ho])) _ _ hs.1
+    have hs := step_sim a b op h
+    have := ih _ _ hs.1
     simp only [World.trace, World.run]
     exact ⟨by rw [hs.2, this.1], this.2⟩
+
+/-- **generate p after a reset = generate p on fresh objects**: for ANY world (whatever its holder contains and
+    whatever state its attached emitters are in) whose unattached emitters are clean, every program run after
+    `reset(soft|hard)` answers exactly as on freshly constructed objects and ends in an indistinguishable world. -/
+theorem generate_after_reset_eq_fresh (w : World) (hard : Bool) (p : List Op) (hi : w.h.arch.isSome = true)
+    (hk : w.es.map (·.kind) = World.fresh.es.map (·.kind))
+    (hd : ∀ i e, w.es[i]? = some e → i ∉ w.h.attached → e.obs = ({ kind := e.kind } : Emitter).obs) :
+    (w.reset hard).trace p = World.fresh.trace p ∧ Sim ((w.reset hard).run p) (World.fresh.run p) :=
+  no_residue p _ _ (reset_sim_fresh w hard hi hk hd)
+
+/-- **generate p after reinit = generate p on a fresh holder with the same emitters attached**: two worlds that agree
+    on what attachment fixed (environment, attachment order, emitter kinds/attachment state) but differ arbitrarily in
+    everything generated before (sections, labels, relocations, fixups, node lists, one-shot options, virtual registers,
+    annotations, loggers, retained capacity) run every program identically after `reinit`. -/
+theorem generate_after_reinit_forgets_history (a b : World) (p : List Op) (ha : a.h.arch.isSome = true)
+    (harch : a.h.arch = b.h.arch) (hatt : a.h.attached = b.h.attached)
+    (hes : (reinitAll a.es a.h.attached).map Emitter.obs = (reinitAll b.es b.h.attached).map Emitter.obs) :
+    a.reinit.1.trace p = b.reinit.1.trace p ∧ Sim (a.reinit.1.run p) (b.reinit.1.run p) := by
+  apply no_residue
+  have hb : b.h.arch.isSome = true := harch ▸ ha
+  apply sim_of_parts
+  · rw [reinit_holder_forgets a ha, reinit_holder_forgets b hb, harch, hatt]
+  · have hna : a.h.arch.isNone = false := by cases h : a.h.arch <;> simp_all
+    have hnb : b.h.arch.isNone = false := by cases h : b.h.arch <;> simp_all
+    simp only [World.reinit, hna, hnb]
+    exact hes
+
+/-- logging / validation switched at any point of any program never changes what the rest of the program produces -/
+theorem logging_never_reaches_output (w : World) (on : Bool) (i : Nat) (p : List Op) :
+    (w.step (.hlogger on)).1.trace p = w.trace p ∧ (w.step (.elogger i on)).1.trace p = w.trace p ∧
+      (w.step (.diag i on)).1.trace p = w.trace p := by
+  have h := logging_is_unobservable w on i
+  exact ⟨(no_residue p _ _ h.1).1, (no_residue p _ _ h.2.1).1, (no_residue p _ _ h.2.2).1⟩
 
 /-- the rendered `code|` part of a dump is the same for indistinguishable worlds on the holder side (sections,
     labels, relocations, counters, attachment list are read from `obs` fields only) -/
